@@ -162,6 +162,12 @@ namespace ValueFlow
             }
             setTokenValue(parent, castValue(std::move(value), sign, settings.platform.char_bit), settings);
         }
+        else if (valueType.type == ValueType::Type::BOOL && isNumeric(value)) {
+            // conversion to bool: 0 stays 0, every other value becomes 1
+            value.intvalue = (value.isFloatValue() ? (value.floatValue != 0.0) : (value.intvalue != 0)) ? 1 : 0;
+            value.valueType = Value::ValueType::INT;
+            setTokenValue(parent, std::move(value), settings);
+        }
         else if (valueType.type == ValueType::Type::SHORT)
             setTokenValue(parent, castValue(std::move(value), valueType.sign, settings.platform.short_bit), settings);
         else if (valueType.type == ValueType::Type::INT)
